@@ -311,7 +311,7 @@ func (e *keeperEnv) pendOf(ctx sdk.Context, nonce uint64) string {
 
 // renameMembers maps the distinct member addresses of two oracle-set claims, in order of first appearance, onto the
 // registered external addresses
-func (e *keeperEnv) renameMembers(k *kind, a, b claim) (claim, claim, bool) {
+func (e *keeperEnv) renameMembers(k *kind, a, b claim, mustCollide bool) (claim, claim, bool) {
 	ma, ok1 := k.clone(a).(*ct.MsgOracleSetUpdatedClaim)
 	mb, ok2 := k.clone(b).(*ct.MsgOracleSetUpdatedClaim)
 	if !ok1 || !ok2 {
@@ -327,7 +327,7 @@ func (e *keeperEnv) renameMembers(k *kind, a, b claim) (claim, claim, bool) {
 		}
 	}
 	ma.ChainName, mb.ChainName = keeperChain, keeperChain
-	if verdict(ma) != "ok" || verdict(mb) != "ok" || hashOf(ma) != hashOf(mb) || k.effect(ma) == k.effect(mb) {
+	if verdict(ma) != "ok" || verdict(mb) != "ok" || (mustCollide && hashOf(ma) != hashOf(mb)) || k.effect(ma) == k.effect(mb) {
 		return nil, nil, false
 	}
 	return ma, mb, true
@@ -376,7 +376,7 @@ func keeperRun(t *testing.T, r *run, g *gen, ks map[string]*kind) {
 	for _, col := range r.found {
 		r.out.Count("keeper:replayed-collision")
 		allPositions(col.k, col.what, col.a, col.b)
-		if a2, b2, ok := e.renameMembers(col.k, col.a, col.b); ok {
+		if a2, b2, ok := e.renameMembers(col.k, col.a, col.b, true); ok {
 			r.out.Count("keeper:replayed-collision:renamed")
 			allPositions(col.k, col.what+", members renamed to registered oracles", a2, b2)
 		}
@@ -416,6 +416,18 @@ func keeperRun(t *testing.T, r *run, g *gen, ks map[string]*kind) {
 	}
 	for _, sc := range fixed {
 		allPositions(sc.k, sc.what, sc.m, sc.d)
+	}
+	// 2b. the corpus pairs that are valid (oracle-set members renamed to registered oracles)
+	for _, p := range r.corpus {
+		a, b := p.a, p.b
+		if a2, b2, ok := e.renameMembers(p.k, a, b, false); ok {
+			a, b = a2, b2
+		}
+		if verdict(a) != "ok" || verdict(b) != "ok" || a.GetEventNonce() != b.GetEventNonce() {
+			continue
+		}
+		r.out.Count("keeper:corpus:" + p.k.tag)
+		allPositions(p.k, p.what, a, b)
 	}
 
 	// 3. generated disagreements: single-field variants and perturbation variants of keeper-acceptable claims
